@@ -62,11 +62,16 @@ def run():
         flow.mc_runs(out, [{"module": "MCFailPoint.tla", "cfg": "MCFailPoint.cfg", "timeout": 1800},
                            {"module": "MCFailPoint.tla", "cfg": "MCFailPointNone.cfg", "expect": "violation", "timeout": 900}])
     trace = os.path.join(vlib.scratch(), "fault.ndjson")
-    vlib.run_zv(zv, "fault", [], trace)
     ntrace = os.path.join(vlib.scratch(), "noop.ndjson")
-    vlib.run_zv(zv, "noop", [], ntrace)
     ptrace = os.path.join(vlib.scratch(), "failpoint.ndjson")
-    vlib.run_zv(zv, "failpoint", [], ptrace)
+    # the three families are recorded side by side; the twin families are single-threaded interpreters:
+    # keep the Go runtime from spreading each of the 16 shard processes over every core of the machine
+    with concurrent.futures.ThreadPoolExecutor(3) as ex:
+        futs = [ex.submit(vlib.run_zv, zv, "fault", [], trace),
+                ex.submit(vlib.run_zv, zv, "noop", [], ntrace, env={"GOMAXPROCS": "2"}),
+                ex.submit(vlib.run_zv, zv, "failpoint", [], ptrace, env={"GOMAXPROCS": "2"})]
+        for f in futs:
+            f.result()
     denv = {"VERIF_DEVS": _devs()}
     real, cached = _validate_together([("FaultTrace.tla", "FaultTrace.cfg", trace, None, 3000),
                                        ("NoopTrace.tla", "NoopTrace.cfg", ntrace, denv, 1500),
